@@ -1238,21 +1238,22 @@ func (p *Prog) checkPortScan(f *Func, r *Report) {
 			if x.Tok == token.INC && isObj(x.X, curObj) {
 				inc = true
 			}
-		case *ast.IfStmt:
-			be, ok := unparen(x.Cond).(*ast.BinaryExpr)
-			if !ok {
-				return true
-			}
-			if be.Op == token.GTR && isObj(be.X, curObj) && isObj(be.Y, pmax) && len(x.Body.List) == 1 {
-				if as, ok := x.Body.List[0].(*ast.AssignStmt); ok && len(as.Lhs) == 1 && isObj(as.Lhs[0], curObj) && isObj(as.Rhs[0], pmin) {
+		case *ast.AssignStmt:
+			// wrap: "current = min" where current > max is known
+			if len(x.Lhs) == 1 && len(x.Rhs) == 1 && isObj(x.Lhs[0], curObj) && isObj(x.Rhs[0], pmin) {
+				if factListHas(p.DominatingFactList(f, x), func(ft Fact) bool {
+					return ft.Op == "<" && ft.Val && isObj(ft.X, pmax) && isObj(ft.Y, curObj)
+				}) {
 					wrap = true
 				}
 			}
-			if be.Op == token.EQL && ((isObj(be.X, curObj) && isObj(be.Y, startObj)) || (isObj(be.Y, curObj) && isObj(be.X, startObj))) {
-				for _, st := range x.Body.List {
-					if b, ok := st.(*ast.BranchStmt); ok && b.Tok == token.BREAK {
-						stop = true
-					}
+		case *ast.BranchStmt:
+			// stop: leaving the loop where current == start is known
+			if x.Tok == token.BREAK {
+				if factListHas(p.enclosingIfFacts(f, loop.Body, x), func(ft Fact) bool {
+					return ft.Op == "==" && ft.Val && ((isObj(ft.X, curObj) && isObj(ft.Y, startObj)) || (isObj(ft.Y, curObj) && isObj(ft.X, startObj)))
+				}) {
+					stop = true
 				}
 			}
 		}
